@@ -5,9 +5,11 @@
 (* The VM owns a configuration cfg.  Parse copies it into the parser's     *)
 (* copy pcfg; every gated alternative of the grammar consults pcfg at the  *)
 (* moment it is tried.  A macro line  // #EnableDice <family> <bool>       *)
-(* writes pcfg only; an st-command value written without parentheses is    *)
-(* parsed with statements, default-sides dice and bitwise operators        *)
-(* switched off (the flags are saved before and restored after it).        *)
+(* writes pcfg only; the part of an st-command value (assigned value or    *)
+(* modification amount) that is not inside parentheses is parsed with      *)
+(* statements, default-sides dice and bitwise operators switched off (the  *)
+(* flags are saved before and restored after it, and restored for what is  *)
+(* inside parentheses).                                                    *)
 (* When the parse ends pcfg is discarded; cfg is never written.            *)
 (* Text that is compiled only when it is first evaluated - a computed      *)
 (* value created by the host or restored from JSON, the default-sides      *)
